@@ -716,7 +716,10 @@ func (s *Server) filterBatchLocked(next jmessages) jmessages {
 			delete(s.call, id)
 			rsp.ch <- req
 			s.log("Received response for callback %q", id)
-		} else if s.allowP {
+		} else if s.allowP && (req.R != nil || req.E != nil) {
+			// Only a message that carries a result or an error can be a reply.
+			// Anything else that is not a request (no or empty method, not an
+			// object) is an invalid request and is answered as one.
 			s.log("Discarding response for unknown callback %q", id)
 		} else {
 			keep = append(keep, req)
